@@ -40,6 +40,8 @@ type propCfg struct {
 	Assumptions     []string
 	FuzzTargets     []string // native fuzz targets run in the thorough tier
 	FuzzTime        string
+	NeedBins        bool // build the four front-end binaries from /repo/cmd before the shards start
+	NeedRaceBins    bool // additionally build -race variants of the two CLIs
 }
 
 func min(a, b time.Duration) time.Duration {
@@ -135,6 +137,47 @@ func buildTest(dir string, race bool) (string, error) {
 		return "", fmt.Errorf("%v\n%s", err, b)
 	}
 	return out, nil
+}
+
+// buildBins builds the front-end binaries of /repo's working tree (through the harness module's
+// replace directive, so /repo/go.sum is never touched).
+func buildBins(dir string, race bool) error {
+	os.MkdirAll(dir, 0o755)
+	names := []string{"go-critic", "gocritic", "go-critic-analysis", "gocritic-analysis"}
+	var wg sync.WaitGroup
+	errs := make([]error, len(names)*2)
+	build := func(i int, name string, race bool) {
+		defer wg.Done()
+		out := filepath.Join(dir, name)
+		args := []string{"build", "-o", out}
+		e := env()
+		if race {
+			args = []string{"build", "-race", "-o", out + "-race"}
+			e = append(e, "CGO_ENABLED=1")
+		}
+		args = append(args, "github.com/go-critic/go-critic/cmd/"+name)
+		cmd := exec.Command("go", args...)
+		cmd.Dir = filepath.Join(root, "harness")
+		cmd.Env = e
+		if b, err := cmd.CombinedOutput(); err != nil {
+			errs[i] = fmt.Errorf("%s: %v\n%s", name, err, b)
+		}
+	}
+	for i, n := range names {
+		wg.Add(1)
+		go build(i, n, false)
+		if race && i < 2 {
+			wg.Add(1)
+			go build(len(names)+i, n, true)
+		}
+	}
+	wg.Wait()
+	for _, e := range errs {
+		if e != nil {
+			return e
+		}
+	}
+	return nil
 }
 
 type shardOutcome struct {
@@ -271,6 +314,12 @@ func check(id, tier string) int {
 	if err != nil {
 		fmt.Printf("INCONCLUSIVE: the harness does not build against /repo's working tree:\n%v\n", err)
 		return 2
+	}
+	if cfg.NeedBins {
+		if err := buildBins(filepath.Join(rundir, "bin"), cfg.NeedRaceBins); err != nil {
+			fmt.Printf("INCONCLUSIVE: the go-critic binaries do not build from /repo's working tree:\n%v\n", err)
+			return 2
+		}
 	}
 	known := core.LoadKnown()
 	isKnown := func(sig string) bool {
